@@ -304,7 +304,10 @@ def run(ctx, repo, tier):
             if firsts:
                 e_ = firsts[0]
             txt_ = src(e_).replace(" ", "").replace('"', "'")
-            by_close = any(w_ in txt_ for w_ in (".split(')')[0]", ".rsplit(')',1)[0]", ".partition(')')[0]", ".rpartition(')')[0]"))
+            by_close = any(isinstance(x_, ast.Subscript) and isinstance(x_.slice, ast.Constant) and x_.slice.value == 0 and
+                           isinstance(x_.value, ast.Call) and isinstance(x_.value.func, ast.Attribute) and
+                           x_.value.func.attr in ("split", "rsplit", "partition", "rpartition") and x_.value.args and
+                           isinstance(x_.value.args[0], ast.Constant) and x_.value.args[0].value == ")" for x_ in ast.walk(e_))
             fixed = isinstance(e_, ast.Subscript) and isinstance(e_.slice, ast.Slice) and e_.slice.upper is not None and \
                 isinstance(e_.slice.upper, (ast.UnaryOp, ast.Constant)) and ".strip()" not in txt_ and ".rstrip()" not in txt_
             if by_close:
